@@ -220,7 +220,7 @@ CLAIMED = {
              "instantiations) is proved in bounds from the guards that dominate it. One genuine defect found this way "
              "(RadioTap::matches_response) was repaired with a fix: commit. Of clauses 1-2 only the IPv4 address predicate is "
              "decided (R2): its truth table over the four address comparisons accepts mirrored addresses and never accepts a "
-             "packet not addressed to us or, for unicast requests, not sent by the requested host. (R3) ICMP / ICMPv6 query matching evaluated exhaustively over (request type, reply type) in the enum values, every constant compared with and an outside value, with the remaining equalities as boolean inputs: echo, timestamp and address-mask requests accept their own reply type iff identifier and sequence number are equal; no other type combination is accepted unless the enumerator names form a REQUEST/REPLY (SOLICIT/ADVERT) pair.",
+             "packet not addressed to us or, for unicast requests, not sent by the requested host. (R4) ICMP / ICMPv6 query matching evaluated exhaustively over (request type, reply type) in the enum values, every constant compared with and an outside value, with the remaining equalities as boolean inputs: echo, timestamp and address-mask requests accept their own reply type iff identifier and sequence number are equal; no other type combination is accepted unless the enumerator names form a REQUEST/REPLY (SOLICIT/ADVERT) pair.",
         note="The rest of clauses 1-2 (identifiers, ports, sequence numbers, other layers' predicates) is value-level and NOT decided. Assumes "
              "no overflow in additions of 32-bit lengths; little-endian arm only.",
     ),
